@@ -43,18 +43,18 @@ func approvals(rng *kernel.RNG, op string, target int64, nval int) []kernel.Step
 
 // GenWorkload produces a list of transaction steps and "block" cuts.
 func GenWorkload(rng *kernel.RNG, c GenCfg) []kernel.Step {
-	weights := map[string]int{"chain": 4, "import": 6, "cand": 3, "relayer": 2, "node": 2, "priv": 2, "noise": 2, "sig": 1, "burst": 1, "delonly": 0, "twoepochs": 1, "returning": 1, "ripple": 1, "statevals": 1, "crossaction": 1, "ownervote": 1}
+	weights := map[string]int{"chain": 4, "import": 6, "cand": 3, "relayer": 2, "node": 2, "priv": 2, "noise": 2, "sig": 1, "burst": 1, "delonly": 0, "twoepochs": 1, "returning": 1, "ripple": 1, "statevals": 1, "crossaction": 1, "ownervote": 1, "rejoin": 1, "updquit": 1, "candop": 1, "relayerdup": 0}
 	for k, v := range c.W {
 		weights[k] = v
 	}
 	// swarm: switch some families off entirely in some runs
-	for _, k := range []string{"chain", "import", "cand", "relayer", "node", "priv", "noise", "sig", "burst", "delonly", "twoepochs", "returning", "ripple", "statevals", "crossaction", "ownervote"} {
+	for _, k := range []string{"chain", "import", "cand", "relayer", "node", "priv", "noise", "sig", "burst", "delonly", "twoepochs", "returning", "ripple", "statevals", "crossaction", "ownervote", "rejoin", "updquit", "candop"} {
 		if _, forced := c.W[k]; !forced && rng.Chance(0.15) {
 			weights[k] = 0
 		}
 	}
 	var fams []string
-	for _, k := range []string{"chain", "import", "cand", "relayer", "node", "priv", "noise", "sig", "burst", "delonly", "twoepochs", "returning", "ripple", "statevals", "crossaction", "ownervote"} {
+	for _, k := range []string{"chain", "import", "cand", "relayer", "node", "priv", "noise", "sig", "burst", "delonly", "twoepochs", "returning", "ripple", "statevals", "crossaction", "ownervote", "rejoin", "updquit", "candop"} {
 		for i := 0; i < weights[k]; i++ {
 			fams = append(fams, k)
 		}
@@ -97,6 +97,27 @@ func GenWorkload(rng *kernel.RNG, c GenCfg) []kernel.Step {
 		}
 	}
 	anyone := func() int64 { return int64(rng.Intn(c.NVal + nCands + nUsers)) }
+	if weights["relayerdup"] > 0 && rng.Chance(0.5) {
+		// at the very start the relayer request ids are known (0, 1): a relayer is registered, a
+		// second request names the same (already registered) address and is approved, the relayer
+		// is removed, and a stale approval round runs on the second request
+		r, req := int64(rng.Intn(nUsers)), int64(rng.Intn(c.NVal+nCands+nUsers))
+		full := func(op string, id int64) {
+			for i, pi := range rng.Perm(c.NVal) {
+				if i < quorum(c.NVal) {
+					txs = append(txs, S(op, id, int64(pi)))
+				}
+			}
+		}
+		txs = append(txs, S("regrelayer", r, req))
+		full("approverelayer", 0)
+		txs = append(txs, S("regrelayer", r, req))
+		full("approverelayer", 1)
+		txs = append(txs, S("rmrelayer", r, req))
+		full("approvermrelayer", 0)
+		full("approverelayer", 1)
+		txs = append(txs, S("cut"))
+	}
 	for len(txs) < c.Steps {
 		switch fams[rng.Intn(len(fams))] {
 		case "chain":
@@ -289,6 +310,87 @@ func GenWorkload(rng *kernel.RNG, c GenCfg) []kernel.Step {
 					txs = append(txs, a)
 				}
 				txs = append(txs, S("regrelayer", int64(rng.Intn(nUsers)), int64(rng.Intn(c.NVal))), S("nocut-end"))
+			}
+		case "rejoin":
+			// two NEW validators are approved one after the other, the first one quits and leaves at an
+			// epoch change, then applies and is approved again: it must come back under its own index
+			a := nv + int64(rng.Intn(nCands))
+			b := nv + (a-nv+1+int64(rng.Intn(nCands-1)))%int64(nCands)
+			ownA, ownB := nv+int64(nCands)+int64(rng.Intn(nUsers)), nv+int64(nCands)+int64(rng.Intn(nUsers))
+			full := func(op string, target int64) {
+				for i, pi := range rng.Perm(c.NVal) {
+					if i < quorum(c.NVal) {
+						txs = append(txs, S(op, target, int64(pi)))
+					}
+				}
+			}
+			txs = append(txs, S("regcand", a, ownA))
+			full("approvecand", a)
+			txs = append(txs, S("regcand", b, ownB))
+			full("approvecand", b)
+			txs = append(txs, S("cut"), S("commitdpos", 0, 0), S("cut"), S("quitnode", a, ownA), S("cut"), S("commitdpos", 0, 0), S("cut"), S("regcand", a, ownA))
+			full("approvecand", a)
+			if rng.Chance(0.5) {
+				c3 := nv + int64(rng.Intn(nCands))
+				txs = append(txs, S("regcand", c3, ownB))
+				full("approvecand", c3)
+			}
+			txs = append(txs, S("cut"), S("commitdpos", 0, 0), S("cut"))
+		case "updquit":
+			// an update request and a quit request of the owner pending for the SAME chain at the same
+			// time, approvals of the two interleaved: each action needs its own quorum
+			id := regID()
+			o := ownerOf(id)
+			if _, ok := owner[id]; !ok {
+				o = int64(rng.Intn(nUsers))
+				owner[id] = o
+				txs = append(txs, S("regchain", id, 0, o, int64(rng.Intn(3))))
+				for i, pi := range rng.Perm(c.NVal) {
+					if i < quorum(c.NVal) {
+						txs = append(txs, S("approvechain", id, int64(pi)))
+					}
+				}
+			}
+			txs = append(txs, S("updchain", id, 0, o, int64(rng.Intn(3))), S("quitchain", id, o))
+			first, second := "approvequit", "approveupd"
+			if rng.Chance(0.5) {
+				first, second = second, first
+			}
+			k := 1 + rng.Intn(quorum(c.NVal))
+			if k >= quorum(c.NVal) {
+				k = quorum(c.NVal) - 1
+			}
+			p1, p2 := rng.Perm(c.NVal), rng.Perm(c.NVal)
+			for i := 0; i < k; i++ {
+				txs = append(txs, S(first, id, int64(p1[i])))
+			}
+			for i := 0; i < quorum(c.NVal); i++ {
+				txs = append(txs, S(second, id, int64(p2[i])))
+			}
+			for i := k; i < quorum(c.NVal); i++ {
+				txs = append(txs, S(first, id, int64(p1[i])))
+			}
+		case "candop":
+			// an approved candidate that is not yet a consensus member sits in the pool while
+			// operator-only operations are signed by the multi-address over ALL active members
+			cnd := nv + int64(rng.Intn(nCands))
+			txs = append(txs, S("regcand", cnd, nv+int64(nCands)+int64(rng.Intn(nUsers))))
+			for i, pi := range rng.Perm(c.NVal) {
+				if i < quorum(c.NVal) {
+					txs = append(txs, S("approvecand", cnd, int64(pi)))
+				}
+			}
+			txs = append(txs, S("cut"))
+			for k := 0; k < 1+rng.Intn(3); k++ {
+				switch rng.Intn(3) {
+				case 0:
+					txs = append(txs, S("commitdpos", 5, anyone()))
+				case 1:
+					txs = append(txs, S("updateconfig", 5, anyone(), int64(rng.Intn(5))))
+				case 2:
+					txs = append(txs, S("blackchain", int64(rng.Intn(4)), 5, anyone()))
+				}
+				txs = append(txs, S("cut"))
 			}
 		case "returning":
 			// a pool member leaves at an epoch change and applies again (it keeps its peer index),
